@@ -1350,6 +1350,26 @@ def late_fork_probe(ctx, P, escaped, path):
         for suffix in ("", ".forked", ".forked.tmp"):
             with __import__("contextlib").suppress(OSError):
                 os.unlink(flag + suffix)
+        detach_stuck_workers(ctx, [locals().get("worker")])
+
+
+def detach_stuck_workers(ctx, workers, grace=3.0):
+    """worker threads of the code under test are non-daemon; one that is left blocked for good (e.g. in communicate() on
+    pipes that a defective cancel() closed under it) would keep this process from exiting. After the verdicts are in,
+    such a thread is taken off the interpreter's exit-time join list (it then dies with the process like a daemon)."""
+    t_end = time.time() + grace
+    for t in workers:
+        if t is None:
+            continue
+        while t.is_alive() and time.time() < t_end:
+            time.sleep(0.01)
+        if t.is_alive():
+            ctx.count("real:worker-thread-left-blocked(detached)")
+            try:
+                with threading._shutdown_locks_lock:
+                    threading._shutdown_locks.discard(t._tstate_lock)
+            except Exception:  # noqa: BLE001
+                pass
 
 
 class _TokenOnly:
@@ -1534,6 +1554,7 @@ def _real_process_runs(ctx, n_runs, P, rng, escaped, forced=None):
         finally:
             for j in jobs:
                 j.cleanup()
+            detach_stuck_workers(ctx, [j.worker for j in jobs], grace=5.0)
 
 
 # --------------------------------------------------------------------------------------------------------------------
